@@ -65,6 +65,14 @@ MUTANTS = [
     ("C12", "cuqi/model/_model.py", "gradient = lambda direction, wrt: direction@jacobian(wrt)", "gradient = lambda direction, wrt: jacobian(wrt)@direction"),
     ("C12", "cuqi/model/_model.py", "            new_model = copy(self)\n", "            new_model = self\n"),
     ("C12", "cuqi/model/_model.py", "                                              item, is_par=True,", "                                              item, is_par=False,"),
+    # C17
+    ("C17", "cuqi/testproblem/_testproblem.py", "    elif BC.lower() == \"mirror\":\n        mode = \"mirror\"\n    elif BC.lower() == \"reflect\":\n        mode = \"reflect\"", "    elif BC.lower() == \"mirror\":\n        mode = \"reflect\"\n    elif BC.lower() == \"reflect\":\n        mode = \"mirror\""),
+    ("C17", "cuqi/testproblem/_testproblem.py", "data_dist = cuqi.distribution.Gaussian(model(prior), (y_exact*noise_std)**2, name=\"y\")", "data_dist = cuqi.distribution.Gaussian(model(prior), (y_exact*noise_std), name=\"y\")"),
+    ("C17", "cuqi/testproblem/_testproblem.py", "        elif (BC.lower() == \"nearest\"):\n            BC = \"edge\"", "        elif (BC.lower() == \"nearest\"):\n            BC = \"symmetric\""),
+    ("C17", "cuqi/testproblem/_testproblem.py", "        sigma = np.linalg.norm(y_exact)/SNR\n        sigma2 = sigma*sigma # variance of the observation Gaussian noise\n        data = y_exact + np.random.normal(0, sigma, y_exact.shape)\n\n        # Bayesian model\n        x = cuqi.distribution.Gaussian(np.zeros(model.domain_dim), 1)\n        y = cuqi.distribution.Gaussian(model(x), sigma2)\n        \n        # Initialize Deconvolution as BayesianProblem problem\n        super().__init__(y, x, y=data)\n\n        # Store exact values\n        self.exactSolution = x_exact\n        self.exactData = y_exact\n        self.infoString",
+     "        sigma = np.linalg.norm(y_exact)/SNR\n        sigma2 = sigma # variance of the observation Gaussian noise\n        data = y_exact + np.random.normal(0, sigma, y_exact.shape)\n\n        # Bayesian model\n        x = cuqi.distribution.Gaussian(np.zeros(model.domain_dim), 1)\n        y = cuqi.distribution.Gaussian(model(x), sigma2)\n        \n        # Initialize Deconvolution as BayesianProblem problem\n        super().__init__(y, x, y=data)\n\n        # Store exact values\n        self.exactSolution = x_exact\n        self.exactData = y_exact\n        self.infoString"),
+    ("C17", "cuqi/testproblem/_testproblem.py", "            return 10*x[1] - 10*x[0]**3 + 5*x[0]**2 + 6*x[0]\n        def jacobian(x):\n            return np.array([[-30*x[0]**2 + 10*x[0] + 6, 10]])\n        model = cuqi.model.Model(forward, range_geometry=1",
+     "            return 10*x[1] - 10*x[0]**3 + 5*x[0]**2 + 6*x[0]\n        def jacobian(x):\n            return np.array([[-30*x[0]**2 + 5*x[0] + 6, 10]])\n        model = cuqi.model.Model(forward, range_geometry=1"),
     # C18
     ("C18", "cuqi/pde/_pde.py", "                dt = self.time_steps[idx+1] - t\n                self.assemble_step(t)", "                dt = self.time_steps[idx+1] - t\n                self.assemble_step(self.time_steps[idx+1])"),
     ("C18", "cuqi/pde/_pde.py", "A, u_pre + dt*self.rhs, self._linalg_solve", "A, u_pre, self._linalg_solve"),
